@@ -217,16 +217,16 @@ static I64MAX_REPORTS: std::sync::atomic::AtomicUsize = std::sync::atomic::Atomi
 
 /// `want` = first of (i64, u64, f64) that can represent the values (README "Coercion rules").
 /// `at_i64_max`: a u64 value equal to i64::MAX is present and i64 is the documented answer.
-fn type_pick_ok(ck: &Ck, rep: &mut Report, got: NumericalType, want: NumericalType, at_i64_max: bool) -> bool {
+fn type_pick_ok(ck: &Ck, rep: &mut Report, got: NumericalType, want: NumericalType, quirk: Quirk) -> bool {
     if got == want {
         return true;
     }
-    if at_i64_max && got == NumericalType::U64 {
+    if quirk == Quirk::AtI64MaxNoNeg && got == NumericalType::U64 {
         // no negatives: u64 holds everything exactly as well (pinned by an in-repo unit test)
         rep.observe("u64 value == i64::MAX (no negatives): picked u64 instead of i64, values exact", ck.pipe.to_string());
         return true;
     }
-    if at_i64_max && got == NumericalType::F64 {
+    if quirk == Quirk::AtI64MaxWithNeg && got == NumericalType::F64 {
         // Known defect class, own signature: with a negative value present the column falls
         // through to f64 although i64 represents every value; integers above 2^53 become inexact.
         rep.count("i64max_type_pick_defect_occurrences", 1);
@@ -244,13 +244,13 @@ fn type_pick_ok(ck: &Ck, rep: &mut Report, got: NumericalType, want: NumericalTy
 }
 
 /// numeric type the writer is documented to pick for this model column
-fn model_num_type(c: &MCol) -> (NumericalType, bool) {
+fn model_num_type(c: &MCol) -> (NumericalType, Quirk) {
     if let Some(t) = c.forced {
-        return (t, false);
+        return (t, Quirk::None);
     }
     match &c.data {
         ColData::Num(r) => writer_num_type(r.iter().flatten().copied()),
-        _ => (NumericalType::I64, false),
+        _ => (NumericalType::I64, Quirk::None),
     }
 }
 
@@ -443,7 +443,7 @@ fn columnar_case(case: u64, rng: &mut Rng, rep: &mut Report) {
         if cat == Cat::Num {
             let (want, ambiguous) = model_num_type(c);
             let got = numerical_type_of(handle.column_type()).unwrap();
-            rep.observe("numeric type picked by the writer", format!("{}{}", num_type_name(got), if ambiguous { " (u64 value == i64::MAX)" } else { "" }));
+            rep.observe("numeric type picked by the writer", format!("{}{}", num_type_name(got), if ambiguous != Quirk::None { " (u64 value == i64::MAX)" } else { "" }));
             if !type_pick_ok(&ck, rep, got, want, ambiguous) {
                 continue;
             }
@@ -601,13 +601,13 @@ fn num_min_max(rows: &[Vec<Num>]) -> Option<(Num, Num)> {
 
 /// documented: "the first type compatible out of i64, u64, f64 in that order" over the input
 /// columns (judged by their min / max), unless all inputs already agree or a type is required
-fn merged_num_type(considered: &[(NumericalType, &Vec<Vec<Num>>)], required: Option<NumericalType>) -> Option<(NumericalType, bool)> {
+fn merged_num_type(considered: &[(NumericalType, &Vec<Vec<Num>>)], required: Option<NumericalType>) -> Option<(NumericalType, Quirk)> {
     if let Some(t) = required {
-        return Some((t, false));
+        return Some((t, Quirk::None));
     }
     let first = considered.first()?;
     if considered.iter().all(|c| c.0 == first.0) {
-        return Some((first.0, false));
+        return Some((first.0, Quirk::None));
     }
     let mut ext = vec![];
     for (_, rows) in considered {
@@ -682,7 +682,7 @@ fn merge_case(case: u64, rng: &mut Rng, rep: &mut Report) {
             if c.data.cat() == Cat::Num {
                 let (want, ambiguous) = model_num_type(c);
                 nt = Some(want);
-                if ambiguous {
+                if ambiguous != Quirk::None {
                     // accept what the writer picked for the documented-ambiguous i64::MAX case
                     if let Ok(hs) = reader.read_columns(&c.name) {
                         if let Some(h) = hs.iter().find(|h| cat_of(h.column_type()) == Cat::Num) {
@@ -1124,8 +1124,8 @@ fn check_segment(
         let ct = handle.column_type();
         if cat == Cat::Num {
             let got = numerical_type_of(ct).unwrap();
-            let want: Option<(NumericalType, bool)> = if let Some(t) = c.forced {
-                Some((t, false))
+            let want: Option<(NumericalType, Quirk)> = if let Some(t) = c.forced {
+                Some((t, Quirk::None))
             } else if let (Some(srcs), ColData::Num(all)) = (sources, &c.stored) {
                 // merged dynamic column: judged from the source segments that still contribute
                 let per_src: Vec<(NumericalType, Vec<Vec<Num>>, bool)> = srcs
@@ -1134,8 +1134,11 @@ fn check_segment(
                         let r: Vec<Vec<Num>> = s.rows.iter().map(|g| all[*g].clone()).collect();
                         let (t, amb) = writer_num_type(r.iter().flatten().copied());
                         // a source that itself hit the i64::MAX quirk stored u64 / f64
-                        let any_neg = r.iter().flatten().any(|v| matches!(v, Num::I(x) if *x < 0));
-                        let t = if amb { if any_neg { NumericalType::F64 } else { NumericalType::U64 } } else { t };
+                        let t = match amb {
+                            Quirk::AtI64MaxWithNeg => NumericalType::F64,
+                            Quirk::AtI64MaxNoNeg => NumericalType::U64,
+                            Quirk::None => t,
+                        };
                         let contributes = s.rows.iter().any(|g| alive[*g] && !all[*g].is_empty());
                         (t, coerce_rows(&r, t), contributes)
                     })
@@ -1516,5 +1519,32 @@ fn main() {
     rep.merge(run_cases(&ctx, "merge", ctx.scale(200, 2600) as u64, merge_case));
     rep.merge(run_cases(&ctx, "tantivy", ctx.scale(60, 700) as u64, tantivy_case));
     rep.merge(run_cases(&ctx, "rawcodec", ctx.scale(60, 600) as u64, rawcodec_case));
-    simple_finish(&ctx, rep, "wip", ctx.scale(100, 2000), &[]);
+    simple_finish(
+        &ctx,
+        rep,
+        "evaluation = one column read back and compared with a Vec<Vec<value>> model: every document's values_for_doc/first/has_value, \
+         num_docs/num_vals/cardinality consistency, min/max bounds, values iter/get_range/get_vals, first_vals, row_ids_for_docs, \
+         ColumnBlockAccessor, get_docids_for_value_range (3-7 value x doc ranges), optional-index rank/select/contains, and for str/bytes the \
+         sorted dictionary, ordinals, ord->term, term->ord. Streams: columnar = ColumnarWriter->serialize (optionally with a row permutation)->ColumnarReader; \
+         merge = merge_columnar over 1-5 inputs with differing column sets / numeric types, Stack or Shuffled (alive bitsets; stacked, interleaved, random, reversed row orders), \
+         optional required columns; tantivy = FAST fields u64/i64/f64/bool/date(4 precisions)/ip/bytes/str/json sub-paths over 1-4 segments via \
+         fast_fields().{u64,i64,f64,bool,date,ip_addr,str,bytes,column_opt,dynamic_column_handles}, then deletes + IndexWriter::merge and the same comparison; \
+         rawcodec = each u64 codec forced. Value profiles: const/linear/blockwise+noise/random bit widths/gcd/extremes/monotone/few distinct/outliers, \
+         ipv4-mapped/ipv6 clusters, dictionaries up to 8000 terms; index profiles: full, optional at 0/1/sparse/5119/5120/5121 per 65536-row block/half/all-but-few/runs of 64, \
+         multivalued light/heavy/one huge row/empty rows; 0..200k rows. Non-trivial = values not all equal or cardinality not full (merge: >=2 inputs or rows dropped); \
+         distinct = (stream, type, cardinality, values codec, offsets codec, rows/values size class, value profile, index profile | merge order, #inputs).",
+        ctx.scale(100, 5000),
+        &[
+            "min_value/max_value are documented as bounds only (ColumnValues docs); tightness is observed, not demanded",
+            "reported cardinality must be consistent with the rows (Full => exactly one value per row, Optional => at most one); minimality is observed, not demanded",
+            "numeric type pick: first of (i64,u64,f64) that can represent the values (columnar/README.md, merge_columnar doc); at merge judged from the input columns' min/max as documented; int->f64 coercion is `as f64`",
+            "a u64 value equal to i64::MAX without negatives may select u64 instead of i64 (pinned by an in-repo unit test; values exact either way)",
+            "f64 value ranges with a +-0.0 bound: both the IEEE comparison and the order-preserving total order (-0.0 < +0.0) are accepted",
+            "date fast fields are truncated toward zero to the configured precision (DateOptions::set_precision); json dates are stored untruncated",
+            "a merged dictionary may keep terms that no surviving row uses but never a term absent from the inputs",
+            "sparse/dense optional-index block variants are inferred from the non-null count per 65536-row block (threshold 5120); the variant is not observable through the public API",
+            "codecs and cardinality are read from the serialized column header (layout documented in columnar/README.md and column/serialize.rs)",
+            "NaN is never generated; facet columns (values sorted within a row) are out of scope of the statement",
+        ],
+    );
 }
